@@ -138,6 +138,7 @@ type Exec struct {
 	trivial   int
 	globalPC  []*Term
 	usedLemmas map[string]bool
+	axiomsOnly bool
 }
 
 // frame: one (possibly inlined) function activation.
@@ -430,6 +431,11 @@ func mergeVal(g *Term, a, b Value) Value {
 		panic(mergeFail{"nil"})
 	case FuncV:
 		return av
+	case HashV:
+		if bv, ok := b.(HashV); ok && sameHash(av, bv) {
+			return av
+		}
+		panic(mergeFail{"hash objects differ"})
 	}
 	panic(mergeFail{fmt.Sprintf("cannot merge %T", a)})
 }
@@ -564,8 +570,29 @@ func sameValue(a, b Value) bool {
 		return b == nil
 	case FuncV:
 		return true
+	case HashV:
+		bv, ok := b.(HashV)
+		return ok && sameHash(av, bv)
 	}
 	return false
+}
+
+func sameHash(a, b HashV) bool {
+	if a.Name != b.Name || len(a.Chunks) != len(b.Chunks) || a.Fn != b.Fn {
+		return false
+	}
+	for i := range a.Chunks {
+		ca, cb := a.Chunks[i], b.Chunks[i]
+		if ca.arr != cb.arr || ca.off != cb.off || ca.len != cb.len || len(ca.elems) != len(cb.elems) {
+			return false
+		}
+		for j := range ca.elems {
+			if ca.elems[j] != cb.elems[j] {
+				return false
+			}
+		}
+	}
+	return true
 }
 
 func sortedKeys(m map[string]bool) []string {
